@@ -398,6 +398,28 @@ def xcorr_part(ctx, pid, cov, sets, select=None):
                            how_to_replay="echo '<scenario with trace:true>' | verifsched ; bin/vlib/xcorr.py model_case | _build/ocaml/xrun"),
                       failing_input=False, what="the machine the theorems are about no longer describes the code: " + why[:160])
 
+def xcorrs_part(ctx, pid, cov, n, select=None):
+    """CORR-sched, exact part for Map: schedules of the real map.go replayed step by step on XMachineS"""
+    from . import sched, xcorrs
+    tools, log = sched.build(ctx)
+    exe, olog = ctx.ocaml()
+    if not all(tools.values()) or not exe:
+        ctx.violation("build-xcorrs", dict(broken=["CORR-sched step correspondence for Map (does not build)"], log=(log + str(olog))[-1500:]),
+                      failing_input=False, what="the scratch copy or the extracted machine no longer builds")
+        return
+    xruns = os.path.join(os.path.dirname(exe), "xruns")
+    cnt, bad, skipped = xcorrs.run(ctx, tools, xruns, xcorrs.default_sets(n))
+    mine = [b for b in bad if select is None or select(b)]
+    cov["step_correspondence_Map"] = dict(schedules_replayed_on_XMachineS=cnt, skipped_unmodelled=skipped, mismatches=len(bad), mismatches_for_this_property=len(mine))
+    cov["traces_validated_against_impl"] = cov.get("traces_validated_against_impl", 0) + cnt
+    for i, (sc, r, why) in enumerate(mine[:2]):
+        ctx.violation("xcorrs-%d" % i,
+                      dict(correspondence="CORR-sched (step by step against XMachineS, map.go)",
+                           broken=["CORR-sched: XMachineS no longer replays the implementation: " + why],
+                           scenario=sc, failing_op=json.dumps((sc or {}).get("threads"))[:400],
+                           how_to_replay="echo '<scenario with trace:true>' | verifsched ; bin/vlib/xcorrs.py model_case | _build/ocaml/xruns"),
+                      failing_input=False, what="the Map machine no longer describes the code: " + why[:160])
+
 def _x_sets(ctx, n):
     return [("MapOf_int", n, ["-hasher", "const", "-prefill", "125"]), ("MapOf_int", n, ["-hasher", "sameidx"]),
             ("MapOf_str", n, ["-prefill", "121"]), ("MapOf_int", n, ["-threads", "4", "-ops", "4", "-sched", "mix"])]
@@ -546,6 +568,7 @@ def check_C03():
     fam = solo.resize_families(ctx.tier, [("Map", None)])
     sched_part(ctx, "C03", cov, extra=[("resize frozen / writer parked (directed)", fam)], sets=[("Map", n, ["-prefill", "73", "-clear", "30"]), ("Map", n, []), ("Map", n, ["-keys", "6", "-ops", "4"]),
                                  ("Map", n, ["-threads", "4", "-ops", "4", "-sched", "mix"]), ("Map", n // 2, ["-sched", "pct", "-ops", "5", "-prefill", "73"])])
+    xcorrs_part(ctx, "C03", cov, N(ctx, 150, 3000))
     table_part(ctx, "C03", cov, N(ctx, 200, 2000), [], impl="map")
     if broken and not ctx.violations:
         ctx.violation("proof", dict(broken=broken), failing_input=False, what="proof obligation no longer checks")
